@@ -50,7 +50,7 @@ def run(ctx):
     ctx.evaluations += cres["n"]
     ctx.distinct |= {("client_calls", i) for i in range(cres["n"])}
     for f in cres["findings"]:
-        raw = any(str(d[1]).startswith("RAW:") for r in f["rows"] for d in r.get("dn", []))
+        raw = bool(f.get("raw_outcomes")) or any(str(d[1]).startswith("RAW:") for r in f["rows"] for d in r.get("dn", []))
         if raw or f["fields"] == ["hang"]:
             ctx.violation(f"Client/client_calls/{f['cause']}/{'+'.join(f['fields'])}", {"kind": "client-trace", "family": "client_calls", **f})
         else:
